@@ -22,7 +22,8 @@
 import inspect
 
 from vsc.impl.randobj_int import RandObjInt
-from vsc.constraints import constraint_t, dynamic_constraint_t
+from vsc.constraints import constraint_t, dynamic_constraint_t, \
+    dynamic_constraint_ref_t
 from vsc.impl.ctor import push_constraint_scope, pop_constraint_scope, \
     clear_exprs, push_srcinfo_mode, pop_srcinfo_mode, in_srcinfo_mode, \
     constraint_scope_depth
@@ -116,6 +117,15 @@ class _randobj:
                         model = object.__getattribute__(self, "get_model")()
                         cm = model.get_constraint(a)
                         ret = ConstraintProxy(cm)
+                    elif isinstance(ret, dynamic_constraint_t):
+                        # The dynamic_constraint_t wrapper is per-type as
+                        # well, and holds the block of the object that
+                        # was built last. A reference made through this
+                        # object must refer to this object's block
+                        model = object.__getattribute__(self, "get_model")()
+                        if model is not None and a in model.constraint_dynamic_m.keys():
+                            ret = dynamic_constraint_ref_t(
+                                model.constraint_dynamic_model_l[model.constraint_dynamic_m[a]])
                 
                 return ret
         
